@@ -112,6 +112,14 @@ theorem c13_gen_ServerIdentity_GetID_eq (H : HashFns) (text : Bytes → Bytes) :
   simp only [Gen.C13K.ServerIdentity_GetID, serverIdStr, serverPreStr, this]
   rfl
 
+/-- in one equation: the translated function is the model's `serverIdOpt` (what the driver answers the op `nokey` with) -/
+theorem c13_gen_ServerIdentity_GetID_opt (H : HashFns) (text : Bytes → Bytes) (si : Gen.C13K.ServerIdentity) :
+    Gen.C13K.ServerIdentity_GetID H si text = some (serverIdOpt H (si.Public.map text)) := by
+  obtain ⟨pub⟩ := si
+  cases pub with
+  | none => exact (c13_gen_ServerIdentity_GetID_eq H text).2
+  | some k => exact (c13_gen_ServerIdentity_GetID_eq H text).1 k
+
 theorem c13_gen_ServerIdentity_GetID_ed25519 (H : HashFns) (key : Bytes) :
     Gen.C13K.ServerIdentity_GetID H ⟨some key⟩ hexAscii = some (serverId H key) :=
   (c13_gen_ServerIdentity_GetID_eq H hexAscii).1 key
